@@ -153,6 +153,8 @@ def shards(ctx):
     for k, (st, hists) in enumerate(sorted(reach.items(), key=lambda kv: str(kv[0]))):
         if k % 5 == 2:
             out.append({"cfg": "c32", "sig": False, "state": [st[0], list(st[1])], "history": hists[0]})
+        if k % 5 == 4:
+            out.append({"cfg": "c64", "sig": True, "state": [st[0], list(st[1])], "history": hists[0]})
     ctx.extra["abstract_states"] = len(reach) + 1
     # the slot count is an operand too: boundary values of l (a bit mask or a narrow counter over slots would break here)
     for l in ((9, 33, 65) if ctx.tier == "quick" else (9, 16, 17, 31, 32, 33, 63, 64, 65, 100, 255, 256, 257)):
